@@ -367,15 +367,18 @@ PROPS = {
                        "account-assigning rule is not flagged pending - for any number of rules, elements and fields.  In the thorough tier Kani additionally runs the real "
                        "Extractor::extract / ExtractRule::extract / MatchOrExpr::extract / MatchAndExpr::extract / Fragment += / Fragment + Matched with a matcher whose answers are symbolic per payee seen, and compares all five "
                        "Fragment fields with the statement written as plain loops (rules in order each seeing the rewritten payee; OR = first matching element; AND = all fields; captures then rule payee override; account "
-                       "replaces; cleared iff some matching account rule is not pending) for <= 2 rules x <= 2 OR x <= 2 AND.  NOT decided by proof: ConfigSet::select_impl (substring match, stable sort, fold), regexes, YAML: "
+                       "replaces; cleared iff some matching account rule is not pending) for <= 2 rules x <= 2 OR x <= 2 AND.  ConfigSet::select_impl is proved too (group `config`; nested fn has_matches extracted as its own unit, filter_map / sort_by_key / fold / map rewritten into loops and a stable-sort model, std path and string functions modelled): "
+                       "the configuration in force is the merge - later overrides scalars, rule lists concatenated - of exactly the documents whose `path` occurs in the file's path, shortest `path` first, documents with paths of equal length in document order; none applies = no configuration.  NOT decided by proof: regexes, YAML, ConfigEntry::try_from: "
                        "these are exercised, bounded, by the c17 replay family (layered documents through load_from_yaml + select; rule lists of <= 3 rules through the real CSV import) against a twin of the statement.",
-        "units_doc": ["cli/src/import/config.rs: ConfigFragment::merge", "cli/src/import/extract.rs: Extractor::extract, ExtractRule::extract, MatchOrExpr::extract, MatchAndExpr::extract, AddAssign for Fragment, Add<Matched> for Fragment (Verus, all lengths; Kani, thorough, bounded)"],
+        "units_doc": ["cli/src/import/config.rs: ConfigFragment::merge, ConfigSet::select_impl (+ its nested fn has_matches)", "cli/src/import/extract.rs: Extractor::extract, ExtractRule::extract, MatchOrExpr::extract, MatchAndExpr::extract, AddAssign for Fragment, Add<Matched> for Fragment (Verus, all lengths; Kani, thorough, bounded)"],
         "assumptions": ["stand-ins for Encoding, AccountCommodityConfig, FormatSpec, RewriteRule (merge never looks inside)", "Option::or spec added by hand",
                         "R31: the matcher is any implementation of `captures` that is a function of (matcher, fragment so far, record) - regexes are stateless; the trait's GAT polyfill and its TryFrom constructor bound are dropped; lifetimes mapped to 'static",
-                        "R32-R34: Iterator::try_fold over Option, Iterator::find_map and Option::map replaced by their std definitions (early-exit loops / match); derive(Clone, Default) on Fragment restated"],
+                        "R32-R34: Iterator::try_fold over Option, Iterator::find_map and Option::map replaced by their std definitions (early-exit loops / match); derive(Clone, Default) on Fragment restated",
+                        "select_impl: assumed models of Path::to_str, PathBuf::to_str, path_slash::from_slash (`native_form`), str::contains (`occurs_in`), String::len (`byte_len`), slice::sort_by_key (stable: elements ordered by (key, old position), a permutation), "
+                        "TryFrom<ConfigFragment> for ConfigEntry as an uninterpreted function; R35 / R36: filter_map().collect() and into_iter().fold() replaced by their std definitions (loops)"],
         "bounded": ["thorough (Kani): 2 rules x 1 OR-element x <= 2 AND-fields; thorough: 2 rules x <= 2 OR x 1 field, and <= 2 rules x <= 2 OR x <= 2 AND (about 26 min); names from {None, p1, p2}",
                     "c17 family: base document + every ordered selection of <= 3 of 7 documents x 5 file paths; every list of <= 2 (quick: a third of the 3-rule lists; thorough: all) of 8 rules x 6 CSV rows"],
-        "not_decided": ["ConfigSet::select_impl ordering and matching (bounded family only)", "regex matchers and capture groups, construction of the matchers from the config (bounded family only)", "Income:/Expenses:Unknown fallback (family c16/c17)"],
+        "not_decided": ["regex matchers and capture groups, construction of the matchers from the config (bounded family only)", "Income:/Expenses:Unknown fallback (family c16/c17)"],
     },
     "C18": {
         "level": "other",
